@@ -125,10 +125,10 @@ fn lru_judge(d: &mut Driver, rep: &mut Report, cap: usize, ops: &[(char, usize, 
     }
 }
 pub fn c11(ctx: &Ctx) -> Report {
-    let base = Report::new("C11", "S11: random histories of insert / get / remove over 2..5 keys with capacity 1..4 (length up to 40 quick / 200 thorough) on the real Cache (boxed, never moved), after every operation: return value, count, forward list order, backward link order and map keys from the verif_dump hook, compared with the heap model and judged against the Spec LRU; plus every history of length <= 6 (quick) / <= 8 (thorough) over 3 keys x {insert,get,remove} with capacities 1..3 (exhaustive); non-trivial = history with >= 2 operations; distinct by history");
+    let base = Report::new("C11", "S11: random histories of insert / get / remove over 2..5 keys with capacity 1..4 (length up to 40 quick / 200 thorough) on the real Cache (boxed, never moved), after every operation: return value, count, forward list order, backward link order and map keys from the verif_dump hook, compared with the heap model and judged against the Spec LRU; plus every history of length <= 6 (quick) / <= 7 (thorough) over 3 keys x {insert,get,remove} with capacities 1..3 (exhaustive); non-trivial = history with >= 2 operations; distinct by history");
     let n = per_thread(ctx, 8000, 200000);
     let maxlen = if ctx.thorough() { 200 } else { 40 };
-    let depth = if ctx.thorough() { 8 } else { 6 };
+    let depth = if ctx.thorough() { 7 } else { 6 };
     let mut rep = parallel(&ctx.driver, ctx.threads, ctx.seed, base, |t, d, rng, rep| {
         for i in 0..n {
             let cap = rng.range(1, 4);
